@@ -979,7 +979,11 @@ func (r *Raft) verifyLeader(v *verifyFuture) {
 	r.leaderState.notify[v] = struct{}{}
 
 	// Trigger immediate heartbeats
-	for _, repl := range r.leaderState.replState {
+	for id, repl := range r.leaderState.replState {
+		// Only voters count towards the quorum, so only they may vouch for us.
+		if !hasVote(r.configurations.latest, id) {
+			continue
+		}
 		repl.notifyLock.Lock()
 		repl.notify[v] = struct{}{}
 		repl.notifyLock.Unlock()
